@@ -104,6 +104,15 @@ Qed.
 Global Instance read_macro_args_loop_wk_spec tb fuel s ln :
   Spec (read_macro_args_loop fuel tb s ln) (wk3 s (read_macro_args_loop fuel tb s ln)) | 9 := read_macro_args_loop_wk tb fuel s ln.
 
+Lemma read_sysex_loop_wk hex : forall fuel s ln flag, wk3 s (read_sysex_loop fuel hex s ln flag).
+Proof.
+  induction fuel as [|f IH]; intros s ln flag; [exact I|].
+  assert (IHS : forall s ln flag, Spec (read_sysex_loop f hex s ln flag) (wk3 s (read_sysex_loop f hex s ln flag))) by exact IH.
+  rd_start. cbn [read_sysex_loop] in H. repeat brk H. all: wk_end H.
+Qed.
+Global Instance read_sysex_loop_wk_spec hex fuel s ln flag :
+  Spec (read_sysex_loop fuel hex s ln flag) (wk3 s (read_sysex_loop fuel hex s ln flag)) | 9 := read_sysex_loop_wk hex fuel s ln flag.
+
 (* ------------------------------------------------------------------------------------------ *)
 (* one iteration of the loop of lex_f, with its continuation made explicit                      *)
 (* ------------------------------------------------------------------------------------------ *)
@@ -1019,6 +1028,39 @@ Lemma read_def_str_loc ls e ln X : read_def_str ls e ln = X -> pre e -> kr4n ls 
 Proof. intros H P K. unfold read_def_str in H |- *. loc_comp H K. Qed.
 Global Instance read_def_str_Loc ls e ln : Loc (read_def_str ls e ln) (read_def_str ls (e ++ t) ln) (fun X => pre e /\ kr4n ls X) extr4
   := fun X H K => read_def_str_loc ls e ln X H (proj1 K) (proj2 K).
+Lemma skip_char_loc c e X : skip_char c e = X -> pre e -> k2 X -> skip_char c (e ++ t) = ext2 X.
+Proof. intros H P K. unfold skip_char in H |- *. loc_comp H K. Qed.
+Global Instance skip_char_Loc c e : Loc (skip_char c e) (skip_char c (e ++ t)) (fun X => pre e /\ k2 X) ext2
+  := fun X H K => skip_char_loc c e X H (proj1 K) (proj2 K).
+Lemma read_sysex_value_loc hex e ln X : read_sysex_value hex e ln = X -> pre e -> kr3 X -> read_sysex_value hex (e ++ t) ln = extr3 X.
+Proof. intros H P K. unfold read_sysex_value in H |- *. loc_comp H K. Qed.
+Global Instance read_sysex_value_Loc hex e ln : Loc (read_sysex_value hex e ln) (read_sysex_value hex (e ++ t) ln) (fun X => pre e /\ kr3 X) extr3
+  := fun X H K => read_sysex_value_loc hex e ln X H (proj1 K) (proj2 K).
+Lemma read_sysex_loop_loc hex : forall f f' e ln flag X,
+  read_sysex_loop f hex e ln flag = X -> pre e -> kr3 X -> (length e < f)%nat -> (length (e ++ t) < f')%nat ->
+  read_sysex_loop f' hex (e ++ t) ln flag = extr3 X.
+Proof.
+  induction f as [|f IH]; intros f' e ln flag X H P K Lf Lf'; [lia|]. destruct f' as [|f']; [lia|].
+  assert (IHL : forall e ln flag, Loc (read_sysex_loop f hex e ln flag) (read_sysex_loop f' hex (e ++ t) ln flag)
+                  (fun X => pre e /\ kr3 X /\ (length e < f)%nat /\ (length (e ++ t) < f')%nat) extr3).
+  { intros e1 ln1 fl1 X1 H1 [P1 [K1 [L1 L1']]]. exact (IH f' e1 ln1 fl1 X1 H1 P1 K1 L1 L1'). }
+  cbn [read_sysex_loop] in H |- *. loc_comp H K.
+Qed.
+Global Instance read_sysex_loop_Loc hex e ln flag :
+  Loc (read_sysex_loop (S (length e)) hex e ln flag) (read_sysex_loop (S (length (e ++ t))) hex (e ++ t) ln flag) (fun X => pre e /\ kr3 X) extr3.
+Proof. intros X H [P K]. apply (read_sysex_loop_loc hex _ _ e ln flag X H P K); lia. Qed.
+Lemma read_sysex_loc e ln X : read_sysex e ln = X -> pre e -> kr3 X -> read_sysex (e ++ t) ln = extr3 X.
+Proof. intros H P K. unfold read_sysex in H |- *. loc_comp H K. Qed.
+Global Instance read_sysex_Loc e ln : Loc (read_sysex e ln) (read_sysex (e ++ t) ln) (fun X => pre e /\ kr3 X) extr3
+  := fun X H K => read_sysex_loc e ln X H (proj1 K) (proj2 K).
+Lemma read_int_args_loc ls e ln X : read_int_args ls e ln = X -> pre e -> kr4 X -> read_int_args ls (e ++ t) ln = extr4 X.
+Proof. intros H P K. unfold read_int_args in H |- *. loc_comp H K. Qed.
+Global Instance read_int_args_Loc ls e ln : Loc (read_int_args ls e ln) (read_int_args ls (e ++ t) ln) (fun X => pre e /\ kr4 X) extr4
+  := fun X H K => read_int_args_loc ls e ln X H (proj1 K) (proj2 K).
+Lemma read_int_command_loc ls ty t1 e ln X : read_int_command ls ty t1 e ln = X -> pre e -> kr4 X -> read_int_command ls ty t1 (e ++ t) ln = extr4 X.
+Proof. intros H P K. unfold read_int_command in H |- *. loc_comp H K. Qed.
+Global Instance read_int_command_Loc ls ty t1 e ln : Loc (read_int_command ls ty t1 e ln) (read_int_command ls ty t1 (e ++ t) ln) (fun X => pre e /\ kr4 X) extr4
+  := fun X H K => read_int_command_loc ls ty t1 e ln X H (proj1 K) (proj2 K).
 Lemma read_ext_command_raw_loc ls ty argt t1 t2 e ln X : read_ext_command_raw ls ty argt t1 t2 e ln = X -> pre e -> kr4n ls X -> read_ext_command_raw ls ty argt t1 t2 (e ++ t) ln = extr4 X.
 Proof. intros H P K. unfold read_ext_command_raw in H |- *. loc_comp H K. Qed.
 Global Instance read_ext_command_raw_Loc ls ty argt t1 t2 e ln : Loc (read_ext_command_raw ls ty argt t1 t2 e ln) (read_ext_command_raw ls ty argt t1 t2 (e ++ t) ln) (fun X => pre e /\ kr4n ls X) extr4
